@@ -12,6 +12,23 @@ NOT_APPLICABLE = {}
 HOOK_COMMITS = []
 
 CHECKS = {
+    "C10": {
+        "run": "^TestC10_",
+        "rule": ("sequential: cases = (subject kind and buffer size, operation sequence over {Next v, Error, Complete, Subscribe i, Unsubscribe i}) enumerated exhaustively up to the "
+                 "stated length (subscriber ids introduced in order, at most two operations after a terminal) plus rapid sequences up to length 40; non-trivial = the sequence has a "
+                 "terminal or an Unsubscribe followed by a later Subscribe. Concurrent: cases = (kind/size, sequential prefix, 2-4 threads of operations), each run several times; "
+                 "non-trivial = at least two threads have operations. Distinct by descriptor hash."),
+        "quick": {"rapid": 250, "timeout": 300, "shards": 4},
+        "thorough": {"rapid": 4000, "timeout": 3000, "shards": 16},
+        "assumptions": COMMON_ASSUMPTIONS + ["porcupine v1.3.0 decides linearizability of each recorded history (5 s budget per history; budget exhaustion is counted, not judged)"],
+        "technique": "model-based property testing: exhaustive + rapid operation sequences against a sequential reference model; concurrent histories checked for linearizability with porcupine",
+        "level_text": ("Exploration. After every step of every enumerated/generated operation sequence, each subscriber's log, CountObservers/HasObserver and IsClosed/HasThrown/"
+                       "IsCompleted must equal the 40-line sequential definition of the subject kind (replay rules before and after termination, async final value, unicast "
+                       "single subscriber and backlog). Concurrent histories (call/return stamps, final subscriber logs as reads) must be linearizable w.r.t. the same "
+                       "definition; callbacks must not overlap and must respect the grammar."),
+        "level_note": ("Two listed unicast findings are reported as KNOWN-FINDING. In the concurrent check the late-subscriber rule of unicast is taken as implemented (it is judged by "
+                       "the sequential check). Concurrency coverage is statistical."),
+    },
     "C06": {
         "run": "^TestC06_",
         "rule": ("cases = (row or chain, params, script, cut position, way of unsubscribing {harness goroutine, inside the observer's Next, 1-4 concurrent goroutines}); "
